@@ -4,6 +4,7 @@ from engine import cfg
 from engine.asyncs import awaits, await_of_call, base_local
 from .common import guarded_by_variant, norm_path
 
+EXTRA_CONFIGS = ('default', 'tokio1', 'serde1', 'serde-transport')   # feature configurations re-analysed in the thorough tier
 META = {
     'level': 'other',
     'technique': 'static dominator / must-pass-through and provenance rules on the MIR of the five hook coroutines',
